@@ -410,6 +410,7 @@ def finish(pid, prop, tier, seed, results, wall):
     table = []
     samples = []
     nreplay = 0
+    skipped_replays = 0
     control_report = []
     for r in results:
         cfg = r["cfg"]
@@ -458,6 +459,9 @@ def finish(pid, prop, tier, seed, results, wall):
         reproduced_here = 0
         for tag, lst in sorted(bytag.items()):
             rep = None
+            if len(violations) >= 8 and not is_control:
+                skipped_replays += len(lst)
+                continue        # verdict is already a violation; do not replay hundreds more
             for c in lst[:4]:
                 if not c["inputs"] and False:
                     continue
@@ -504,6 +508,7 @@ def finish(pid, prop, tier, seed, results, wall):
         n_configurations=len(table),
         negative_controls=control_report,
         counterexamples_replayed=nreplay,
+        counterexamples_not_replayed_after_8_violations=skipped_replays,
         known_findings_confirmed=[k for k in known_hits],
         inconclusive=problems[:20],
         rule="a state is one feasible path (equivalence class of inputs with the same "
